@@ -32,6 +32,7 @@ pub fn generic_replay(case: &Value) -> Option<String> {
         Some("prep") => props::c07::replay(case),
         Some("reject") => props::c14::replay(case),
         Some("cache") => props::c04::replay(case),
+        Some("canon") => props::c09::replay(case),
         other => Some(format!("unknown replay kind {other:?}")),
     }
 }
@@ -82,6 +83,8 @@ fn main() {
         "C05" => props::c05::run(tier),
         "C06" => props::c06::run(tier),
         "C07" => props::c07::run(tier),
+        "C09" => props::c09::run(tier),
+        "C12" => props::c12::run(tier),
         "C13" => props::c13::run(tier),
         "C14" => props::c14::run(tier),
         _ => {
